@@ -57,16 +57,23 @@ StarS == \E f \in DOMAIN cols :
 Unq == \E f \in DOMAIN cols, c \in ColPool :
         /\ Has(f, c)
         /\ script' = Append(script, [k |-> "unq", f |-> f, items |-> <<>>, c |-> c])
-        /\ unres' = unres \cup {[f |-> f, c |-> c, t |-> Tgt]}
+        /\ unres' = unres \cup {[f |-> f, c |-> c, t |-> Tgt, tc |-> c]}
         /\ cols' = [t \in DOMAIN cols \cup {Tgt} |-> IF t = Tgt THEN <<c>> ELSE cols[t]]
         /\ UNCHANGED edges
-Next == Len(script) < MaxStmts /\ (Mk \/ Expr \/ StarS \/ Unq)
+\* the same unqualified column feeding two target columns:  SELECT c AS x2, c AS y2 FROM f JOIN oth
+Unq2 == \E f \in DOMAIN cols, c \in ColPool :
+        /\ Has(f, c)
+        /\ script' = Append(script, [k |-> "unq2", f |-> f, items |-> <<>>, c |-> c])
+        /\ unres' = unres \cup {[f |-> f, c |-> c, t |-> Tgt, tc |-> "x2"], [f |-> f, c |-> c, t |-> Tgt, tc |-> "y2"]}
+        /\ cols' = [t \in DOMAIN cols \cup {Tgt} |-> IF t = Tgt THEN <<"x2", "y2">> ELSE cols[t]]
+        /\ UNCHANGED edges
+Next == Len(script) < MaxStmts /\ (Mk \/ Expr \/ StarS \/ Unq \/ Unq2)
 Spec == Init /\ [][Next]_vars
 
 \* ---- the pending unqualified references, resolved against everything the script established
-Established == {e[1] : e \in edges} \cup {e[2] : e \in edges} \cup {Atom(p.t, p.c) : p \in unres}
+Established == {e[1] : e \in edges} \cup {e[2] : e \in edges} \cup {Atom(p.t, p.tc) : p \in unres}
 SrcOfPending(p) == IF Atom(p.f, p.c) \in Established THEN Atom(p.f, p.c) ELSE Atom("?" \o p.f \o "|oth", p.c)
-AllEdges == edges \cup {<<SrcOfPending(p), Atom(p.t, p.c)>> : p \in unres}
+AllEdges == edges \cup {<<SrcOfPending(p), Atom(p.t, p.tc)>> : p \in unres}
 \* ---- end-to-end pairs: roots -> leaves of the composed dependency relation
 Nodes == {e[1] : e \in AllEdges} \cup {e[2] : e \in AllEdges}
 Roots == {n \in Nodes : ~\E e \in AllEdges : e[2] = n}
